@@ -38,8 +38,8 @@ def S(p, n=1):
     return [{'a': 'Step', 'p': p}] * n
 
 
-def rec(ep, key, i, exp=-1):
-    return {'ep': ep, 'key': key, 'id': i, 'exp': exp}
+def rec(ep, key, i, exp=-1, off=-1):
+    return {'ep': ep, 'key': key, 'id': i, 'exp': exp, 'off': off}
 
 
 class Ids:
@@ -52,6 +52,18 @@ class Ids:
             self.n += 1
             out.append(rec(ep, k, self.n, exp))
         return out
+
+
+def SETB(ids, ep, keys, first):
+    """a replicated message set whose offsets start at `first`"""
+    b = ids.batch(ep, keys)
+    for i, r in enumerate(b):
+        r['off'] = first + i
+    return b
+
+
+def APPSET(batch):
+    return [{'a': 'AppSetBegin', 'batch': batch}] + S('app', 2)
 
 
 def APP(batch):
@@ -89,6 +101,20 @@ def directed():
                 seq = S('app', cut) + S('trn', 1) + S('app', 4 - cut if cut < 4 else 0) + S('trn', 1) + S('app', 5)
                 st += seq + APP(ids.batch(2, ['a']))
                 out.append(({'cap': 2, 'occ': False, 'compact': False, 'msgs': 0}, st, 'append-vs-truncate'))
+    # F5: the follower's replicated append (AppendMessageSet: no retry) against a truncation, then a clean restart
+    for k in (2, 3, 4):
+        for o in range(0, k):
+            for park in (0, 1):
+                for newep in (False, True):
+                    ids = Ids()
+                    st = []
+                    for i in range(k):
+                        st += APPSET(SETB(ids, 1, ['a'], i))
+                    st += [{'a': 'AppSetBegin', 'batch': SETB(ids, 2 if newep else 1, ['b', 'a'], k)}] + S('app', park)
+                    st += [{'a': 'TrnBegin', 'o': o}] + S('trn', 2) + S('app', 3)
+                    st += [{'a': 'Reopen'}] + APPSET(SETB(ids, 2, ['a'], o)) + [{'a': 'Reopen'}]
+                    st += [{'a': 'RdNew', 'r': 'r1', 'c': False, 'rev': False, 's': 0}] + [{'a': 'RdNext', 'r': 'r1'}] * (k + 2)
+                    out.append(({'cap': 2, 'occ': False, 'compact': False, 'msgs': 0}, st, 'appendset-vs-truncate'))
     # F2: a compacting clean overlapped by appends that roll a segment / open a new leader epoch
     for k in (2, 3, 4):
         for eps in ((1, 1, 2), (1, 2, 3), (1, 1, 1)):
